@@ -750,6 +750,23 @@ def gen_finish(m, S, impl, lean, objname, doc):
     return emit(lean, doc, sig_of(ex, ps, plain=True), rty, ex.lines)
 
 
+def gen_public_key_new(m, S):
+    """`Participant::generate_public_key`: the key generator call is an OPAQUE step (src/key.rs, src/util/rlwe.rs are outside this mode): its
+    result is the pair of inputs (k0, k1); what is read off the source is WHICH polynomial is broadcast and what is stored"""
+    U = m.Unsupported; what = f"{MP}: fn generate_public_key"
+    sig, body = S.fn("generate_public_key", "Participant")
+    b = re.sub(r",\}", "}", squash(body))
+    b = re.sub(r"([{,])(\w+)(?=[,}])", r"\1\2:\2", b)         # field-init shorthand `f` = `f: f`
+    want = (r"let (\w+)=self\.key_generator\.create_public_key_with_u_prng\(false,&mut self\.borrow_common_rng\(\)\);let (\w+)=vec!\[None;self\.participant_count\];"
+            r"PublicKeyGenerationProtocol\{p1_reveal:PolynomialRevelationProtocol\{parms_id:\*\(\1\.parms_id\(\)\),participant:self,broadcasted:\2,"
+            r"result:\1\.as_ciphertext\(\)\.poly\(0\)\.to_vec\(\)\},result:\1\}")
+    if not re.fullmatch(want, b): raise U(f"{what}: body outside the accepted shape (key from the generator with the COMMON tape, unsaved seed; reveal object on poly(0); key stored) :: `{b[:300]}`")
+    return ["/-- `Participant::generate_public_key`: (k0, k1) = the key `create_public_key_with_u_prng(false, common tape)` returns (opaque step; its reading",
+            "    k1 = the common polynomial, k0 = `pkShare` is tied to the code by the `mp_share pk` lines); the reveal object broadcasts k0, the key is stored -/",
+            "def generate_public_key {α : Type} (count : Nat) (pid : Nat) (k0 k1 : α) : Reveal α × (α × α) :=",
+            "  ((⟨pid, k0, List.replicate count none⟩ : Reveal α), (k0, k1))", ""]
+
+
 def generate(m, tr, spec):
     S = Src(m, tr)
     out = ["/- GENERATED by tools/rs2lean.py + tools/rs2lean_mp.py (via tools/extract.py) from src/multiparty/participant.rs -- do not edit.",
@@ -761,6 +778,7 @@ def generate(m, tr, spec):
     for f, lean, doc in (("key_switch", "key_switch", "`Participant::key_switch`"), ("decrypt", "decrypt", "`Participant::decrypt`"),
                          ("public_key_switch", "public_key_switch", "`Participant::public_key_switch`")):
         l, ex = gen_constructor(m, S, f, lean, doc); out += l; readings.update(ex.readings)
+    out += gen_public_key_new(m, S)
     l, r = gen_rlk(m, S); out += l; readings.update(r)
     out += gen_finish(m, S, "KeySwitchProtocol", "key_switch_finish", "self.cipher", "`KeySwitchProtocol::finish`: the stored ciphertext with the summed shares added to its first polynomial")
     out += gen_finish(m, S, "DecryptionProtocol", "decrypt_finish", "self.cipher", "`DecryptionProtocol::finish`")
